@@ -322,6 +322,18 @@ def c07_scenarios(ctx):
                          "dsarm unspool", "up", "dswait", S(5), "up", S(5)]
             s = dict(base, id=len(scns) + 1, name="deadsend-%s-cb%d" % (src, cb), steps=steps, connbuf=cb, unspool_us=200)
             scns.append(s)
+    # spool files that roll during the outage (the default file size limit of the other scenarios, 4 MiB, is never reached):
+    # the limit is k records of a three-digit-id line plus `align` bytes; with align = 0 every file filled with such lines ends
+    # exactly at the limit (the writer then puts one more record into it), with +-1 / +7 it is straddled.  The backlog spans
+    # many files, so the reader is files behind the writer when the endpoint comes back; small sync intervals included.
+    for k, align, se in ((4, 0, 10000), (1, 0, 1), (7, 0, 3), (4, 1, 10000), (3, -1, 2), (5, 7, 10000)):
+        n1 = 99                 # ids 1..99 delivered before the outage (shorter lines; redone lines of this kind only blur the first file)
+        nsp = 500 if q else 880  # ids 100.. spooled during the outage: all of one length
+        steps = ["up", S(n1), "settle", "down", S(nsp), "backlog %d" % (nsp // 2), "up", "settle", S(50),
+                 "down", S(250), "backlog 100", "up", S(50)]
+        s = dict(base, id=len(scns) + 1, name="spoolroll-k%d-a%d-s%d" % (k, align, se), steps=steps, spool_recs=k, spool_align=align,
+                 spool_syncevery=se, spoolbuf=rng.choice([0, 10, 10000]), unspool_us=rng.choice([1, 50]))
+        scns.append(s)
     # seeded random schedules; small buffers included
     nrand = 3 if q else 24
     for j in range(nrand):
